@@ -3,6 +3,7 @@ CONSTANTS
   NLines = 2
   Dev = {"exit_on_stop_flag"}
   Lvls = {TRUE, FALSE}
+  TwoPhase = FALSE
   Grain = "stmt"
 SPECIFICATION Spec
 INVARIANT InvExactlyOnce
